@@ -13,6 +13,30 @@ P = 'recognizers_number_with_unit.number_with_unit.'
 COUNTS = {'currency': 1048, 'dimension': 570, 'temperature': 54, 'age': 34}
 
 
+def _culture_counts():
+    """number of distinct listed spellings per (language, entity type), read from the real resource classes at run time"""
+    import importlib
+    from lib import env
+    env.setup_paths()
+    wiring = {'currency': ['CurrencySuffixList', 'CurrencyPrefixList'],
+              'dimension': ['InformationSuffixList', 'AreaSuffixList', 'LengthSuffixList', 'SpeedSuffixList', 'VolumeSuffixList', 'WeightSuffixList', 'DimensionSuffixList'],
+              'temperature': ['TemperatureSuffixList', 'TemperaturePrefixList'], 'age': ['AgeSuffixList']}
+    kinds = {'french': 4, 'spanish': 4, 'portuguese': 4, 'german': 1, 'italian': 1, 'dutch': 4, 'chinese': 4}
+    out = {}
+    for lang, nk in kinds.items():
+        m = importlib.import_module('recognizers_number_with_unit.resources.%s_numeric_with_unit' % lang)
+        R = getattr(m, lang.capitalize() + 'NumericWithUnit')
+        out[lang] = {}
+        for kind in list(wiring)[:nk]:
+            names = list(wiring[kind]) + (['AngleSuffixList'] if (lang == 'dutch' and kind == 'dimension') else [])
+            sp = set()
+            for n in names:
+                for unit, spellings in getattr(R, n, {}).items():
+                    sp.update(x for x in spellings.strip().split('|') if x)
+            out[lang][kind] = len(sp)
+    return out
+
+
 def obligations(tier):
     t = 200 if tier == 'quick' else 1200
     B = 40
@@ -43,6 +67,26 @@ def obligations(tier):
               stubs=['inner NumberWithUnitParser.parse -> returns the unit name and a traced number', 'culture_info.format -> identity', 'float() in the parsers module -> traced number'],
               engine='z3 linear real arithmetic on the term traced from the real code'),
            Ob('O5.4-witness', 'fn', 'harness.C05:api_witness_f4', timeout=t, finding='F4', descr='API witness of F4')]
+    CUL = _culture_counts()
+    csl = []
+    for lang, kinds in CUL.items():
+        for kind, n in kinds.items():
+            offs = list(range(0, n, B))
+            if tier == 'quick':
+                offs = offs[::8]
+            csl += [{'lang': lang, 'kind': kind, 'off': o, 'cnt': B} for o in offs]
+    obs.append(Ob('O5.1-unit-lookup-cultures', 'sx', 'harness.C05c:h_unit_lookup', slices=csl, timeout=t,
+                  descr='the same obligation with the parser configuration, resource class and tables of fr, es, pt, de, it, nl, zh (currency; dimension, temperature, age where the culture has them)',
+                  bounds='batches of 40 spellings (quick: every 8th batch, thorough: all ~9000 spellings) x 4 layouts x number length 1..3 x case',
+                  encodes=[P + 'parsers:NumberWithUnitParser.parse', P + 'utilities:DictionaryUtility.bind_dictionary']))
+    obs.append(Ob('O5.1-blank-spelling-cultures', 'sx', 'harness.C05c:h_unit_lookup', finding='F24', timeout=t,
+                  slices=[{'lang': 'portuguese', 'kind': 'currency', 'off': 0, 'cnt': 3, 'blank_kf': 1}, {'lang': 'portuguese', 'kind': 'temperature', 'off': 0, 'cnt': 1, 'blank_kf': 1},
+                          {'lang': 'italian', 'kind': 'currency', 'off': 0, 'cnt': 3, 'blank_kf': 1}],
+                  descr='region F24: Portuguese and Italian spellings listed with a leading blank'))
+    isl = [{'lang': lang, 'kind': 'currency', 'off': o, 'cnt': 120} for lang, kinds in CUL.items() for o in (range(0, kinds['currency'], 120) if tier == 'thorough' else (0, 240))]
+    obs.append(Ob('O5.3-iso-code-cultures', 'sx', 'harness.C05c:h_iso', slices=isl, timeout=t,
+                  descr='single-unit currency in fr, es, pt, de, it, nl, zh: the ISO code is the one the culture table assigns to the canonical unit', bounds='batches of 120 currency spellings',
+                  encodes=[P + 'parsers:BaseCurrencyParser.parse']))
     if tier == 'thorough':
         obs.append(Ob('O5.4-compound-ulp', 'fn', 'harness.C05:fp_compound_traced', slices=[{'w': 10, 'mode': 'ulp'}], timeout=1200,
                       descr='the computed amount is never more than one ulp from the nearest double of the decimal amount', bounds='N < 2^10, M < 100',
